@@ -82,7 +82,7 @@ def shapes(quick=True):
     # its non-collapsed twin: terminates with probability 1/2
     out.append(({"types": [], "init": [asg("x", c(0)), asg("y", c(0)), bern("c", F(1, 2))], "guard": eq("x", 0),
                  "body": [asg("y", ("add", v("y"), c(1))), ("if", [(eq("c", 1), [bern("x", F(1, 2))])], None)]},
-                [("E", {"y": 1}), ("E", {"c": 1})] + more(("E", {"x": 1}), ("c", 2, {"y": 1})), "terminates-with-prob-1/2"))
+                [("E", {"y": 1}), ("E", {"c": 1}), ("c", 2, {"y": 1})] + more(("E", {"x": 1}), ("k", 3, {"y": 1})), "terminates-with-prob-1/2"))
     # collapse with a second shape: nested single ifs
     out.append(({"types": [], "init": [asg("x", c(0)), bern("c", F(1, 3)), bern("d", F(1, 2))], "guard": eq("x", 0),
                  "body": [("if", [(eq("c", 1), [("if", [(eq("d", 1), [bern("x", F(1, 2))])], None)])], None)]},
@@ -111,7 +111,7 @@ def shapes(quick=True):
     out.append(({"types": [], "init": [asg("s", c(0)), asg("y", c(0))], "guard": ("atom", v("s"), "<", c(2)),
                  "body": [("if", [(eq("s", 0), [choice("s", [(F(1, 2), c(0)), (F(1, 4), c(1)), (F(1, 4), c(2))])])], None),
                           asg("y", ("add", v("y"), v("s")))]},
-                [("E", {"y": 1})], "inequality-guard+stuck-with-prob-1/2"))
+                [("E", {"y": 1}), ("k", 2, {"y": 1})], "inequality-guard+stuck-with-prob-1/2"))
     # guard that is a DISJUNCTION whose two sides can hold at the same time (overlap): the indicator of the negated guard
     # needs the inclusion-exclusion term
     out.append(({"types": [], "init": [asg("x", c(0)), asg("z", c(0)), asg("y", c(0))],
